@@ -273,6 +273,8 @@ func (ex *Exec) resetPath() {
 	ex.timeNow = nil
 	ex.pathNotes = nil
 	ex.pathCovers = nil
+	ex.lastInstr = ""
+	ex.curInstr = nil
 }
 
 // model extracts values of all nondet symbols in the current solver scope (after a sat check).
@@ -424,7 +426,22 @@ func (ex *Exec) runPath(fn *ssa.Function) {
 			}
 			h.addViolation(&Violation{Harness: h.Name, Kind: "panic", Label: "uncaught-panic", Site: p.site, Msg: p.msg, Values: vals, Stack: lastN(p.stack, 12), Path: h.stats.Paths})
 		default:
-			panic(r)
+			// internal error of the engine: never a verdict
+			h.stats.Paths++
+			where := ""
+			if len(ex.callStack) > 0 {
+				where = " while executing " + ex.callStack[len(ex.callStack)-1]
+			}
+			msg := fmt.Sprintf("engine internal error: %v%s (at %s)", r, where, ex.lastInstr)
+			dup := false
+			for _, m := range h.inconclusive {
+				if m == msg {
+					dup = true
+				}
+			}
+			if !dup {
+				h.inconclusive = append(h.inconclusive, msg)
+			}
 		}
 	}()
 	ex.callFunction(fn, nil, nil)
